@@ -78,6 +78,55 @@ example : early exF (some 64) false 40 none = .serve := by decide
 example : early exF (some 64) false 30 none = .unavailable503 := by decide
 example : early exF (some 64) false 40 (some 50) = .timeout408 := by decide
 
+/-! ### only complete provider metadata is ever served with (fix F21)
+
+The discovery answers as the HTTP client sees them, classified as `fetchMetadata` does: a 200 answer that decodes is provider
+metadata only when every required member is non-empty.  Whatever the sequence of answers, the document the initialisation ends
+with, and the document in force after any refresh tick, carries every required member: no request is redirected to an empty or
+partial provider URL. -/
+
+def needed : List String := ["issuer", "authorization_endpoint", "token_endpoint", "jwks_uri"]
+
+/-- the members `fetchMetadata` (as it stands in /repo) insists on include the four every login, exchange and key fetch need -/
+def RequiredOK : Prop := ∀ m ∈ needed, m ∈ Oidc.Generated.metadataRequired
+theorem required_ok : RequiredOK := by unfold RequiredOK needed; decide
+
+theorem init_document_complete {Doc : Type} (f : Facts) (required : List String) (present : Doc → List String)
+    (answers : List (Answer Doc)) (t : Int) (i : Nat) (d : Doc)
+    (h : (initRun f (answers.map (classify required present)) t i).2 = some d) : ∀ m ∈ required, m ∈ present d := by
+  obtain ⟨dur, hm⟩ := initRun_mem f _ t i d h
+  exact mem_classified required present answers d dur hm
+
+theorem refresh_keeps_documents_complete {Doc : Type} (f : Facts) (hour fiveMin : Int) (required : List String)
+    (present : Doc → List String) (s : RState Doc) (now : Int) (answers : List (Answer Doc))
+    (hs : ∀ m ∈ required, m ∈ present s.doc) :
+    ∀ m ∈ required, m ∈ present (refreshTick f hour fiveMin s now (answers.map (classify required present))).1.doc := by
+  rw [refreshTick_doc]
+  split
+  · exact hs
+  · cases h : (round f (answers.map (classify required present)) now 0).2.1 with
+    | none => exact hs
+    | some d =>
+      obtain ⟨dur, hm⟩ := round_mem f _ now 0 d h
+      exact mem_classified required present answers d dur hm
+
+/-- the current tree: the document an instance serves with names issuer, authorization, token and key-set endpoint -/
+theorem current_init_document_complete {Doc : Type} (f : Facts) (present : Doc → List String) (answers : List (Answer Doc))
+    (t : Int) (i : Nat) (d : Doc)
+    (h : (initRun f (answers.map (classify Oidc.Generated.metadataRequired present)) t i).2 = some d) :
+    ∀ m ∈ needed, m ∈ present d :=
+  fun m hm => init_document_complete f _ present answers t i d h m (required_ok m hm)
+
+/-- an answer lacking a required member costs an attempt and changes nothing: it is a `fail` of the same duration, so `heals`,
+    `round_first_healthy` and `latest_wins` apply to it as to a refused connection -/
+theorem incomplete_answer_is_a_failed_attempt {Doc : Type} (required : List String) (present : Doc → List String) (d : Doc)
+    (dur : Int) (m : String) (hm : m ∈ required) (hn : m ∉ present d) :
+    classify required present (.json d dur) = .fail dur := classify_incomplete required present d dur m hm hn
+
+-- (premises satisfiable / the classification at work: `{}`, issuer only, a refused connection, then a complete document)
+example : (initRun exF ([Answer.json [] 0, .json ["issuer"] 0, .noAnswer 0, .json needed 0].map (classify needed id)) 0 0).2 = some needed := by decide
+example : classify needed id (.json ["issuer", "authorization_endpoint", "token_endpoint"] 7) = .fail 7 := by simp [classify, complete, needed]
+
 
 /-! obligations against the regenerated shapes: the functions these theorems rest on still have the steps, guards, status
     codes and literals the model was written against (`Oidc/Shapes.lean`) -/
